@@ -21,7 +21,8 @@
 (***************************************************************************)
 EXTENDS Integers, Sequences, FiniteSets, TLC, SequencesExt
 
-CONSTANTS Vals, MaxLen, MaxPend, MaxErr, MaxSyncs, OnlyCompliant
+CONSTANTS Vals, MaxLen, MaxPend, MaxErr, MaxSyncs, OnlyCompliant,
+          KeepSched   \* TRUE: sched is the whole history (replay scripts); FALSE: only the last event (finite state space for liveness)
 NV == Len(Vals)
 Frame(v) == [i \in 1..(4 + Vals[v]) |-> <<v, i>>]
 
@@ -40,7 +41,7 @@ view == <<tag, off, buf, sink, fut, nw, armed, out, dirty, compliant, npend, ner
 
 Init == /\ tag = "none" /\ off = 0 /\ buf = <<>> /\ sink = <<>> /\ fut = "none" /\ nw = 0 /\ armed = <<>>
         /\ out = <<>> /\ dirty = FALSE /\ compliant = TRUE /\ npend = 0 /\ nerr = 0 /\ nsync = 0 /\ sched = <<>>
-Log(e) == sched' = Append(sched, e)
+Log(e) == sched' = IF KeepSched THEN Append(sched, e) ELSE <<e>>
 Running == fut \in {"runW", "runS"}
 IsW == fut \in {"runW", "suspW"}
 
@@ -56,7 +57,7 @@ StartWrite ==
       ELSE /\ buf' = Frame(v) /\ tag' = "from" /\ off' = 0 /\ fut' = "runW"
            /\ armed' = Append(armed, v) /\ dirty' = FALSE /\ UNCHANGED out
    /\ UNCHANGED <<sink, npend, nerr, nsync>>
-StartSync == /\ fut = "none" /\ nsync < MaxSyncs /\ nsync' = nsync + 1 /\ fut' = "runS" /\ Log([a |-> "sync", k |-> 0])
+StartSync == /\ fut = "none" /\ (MaxSyncs < 0 \/ nsync < MaxSyncs) /\ nsync' = (IF MaxSyncs < 0 THEN 0 ELSE nsync + 1) /\ fut' = "runS" /\ Log([a |-> "sync", k |-> 0])
              /\ UNCHANGED <<tag, off, buf, sink, nw, armed, out, dirty, compliant, npend, nerr>>
 Resume == /\ fut \in {"suspW", "suspS"} /\ fut' = (IF fut = "suspW" THEN "runW" ELSE "runS") /\ Log([a |-> "resume", k |-> 0])
           /\ UNCHANGED <<tag, off, buf, sink, nw, armed, out, dirty, compliant, npend, nerr, nsync>>
@@ -98,4 +99,17 @@ OkReportsLength == compliant => \A i \in 1..Len(out) : out[i][1] = "ok" =>
 NoBytesFromRejected == compliant => \A i \in 1..Len(sink) : Vals[sink[i][1]] \in 0..MaxLen
 \* the offset stays within the buffer
 OffsetBounded == tag = "from" => off <= Len(buf)
+
+(* ---- liveness ------------------------------------------------------------------------------------------------------------  *)
+(* A compliant caller that submits every value, syncs whenever an armed frame is waiting (and only then), and keeps polling;   *)
+(* a sink that, while a frame is being written, eventually accepts bytes (it cannot stay Pending or fail forever: MaxPend,     *)
+(* MaxErr).  Then every future completes and in the end the sink holds exactly the frames of all accepted values, in order -   *)
+(* however often futures were dropped.                                                                                        *)
+SyncL == dirty /\ StartSync
+NextL == StartWrite \/ SyncL \/ Resume \/ Drop \/ Idle \/ Complete \/ Accept \/ Zero \/ Fail \/ Pending
+LiveSpec == /\ Init /\ [][NextL]_vars
+            /\ WF_vars(StartWrite) /\ WF_vars(SyncL) /\ WF_vars(Resume) /\ WF_vars(Idle) /\ WF_vars(Complete) /\ SF_vars(Accept)
+AllSubmitted == nw = NV /\ fut = "none" /\ ~dirty
+EventuallyAllInSink == <>[](AllSubmitted /\ sink = Cat(armed))
+NoFutureHangs == [](Running => <>(~Running))
 =============================================================================
